@@ -130,6 +130,8 @@ def run(tier, wd):
         nontriv.add((c["type"], c["role"], route, toks))
         if len(rep.cov["samples"]) < 6 and rnd.random() < 0.003:
             rep.cov["samples"].append({"case": vc.describe(c), "strconv": r["canon"], "specification": {"usage_error": pc["usage"], "value": want}, "library": {"ran": r["ran"], "value": r["value"]}})
+    from props import valcommon
+    valcommon.pair_part(rep, wd, binpath, rnd, "c13-pair", 1 if q else 6)
     rep.cov["traces_validated_against_impl"] = len(cases)
     rep.cov["distinct_nontrivial"] = len(nontriv)
     rep.cov["cases_with_a_rejected_token"] = rejected
@@ -144,6 +146,8 @@ def run(tier, wd):
 
 def replay(path, wd):
     def judge(o, r):
+        if "expected2" in o:
+            return vc.pair_replay_bad(o, r)
         if o.get("kind") == "dead":
             return bool(r.get("hang") or r.get("crash"))
         if o["usage"]:
